@@ -37,6 +37,9 @@ fn from_val(v: &Val) -> Option<V> {
 fn src(v: &V) -> String {
     match v {
         V::Int(n) => format!("{}", n),
+        // not-a-number and the infinities only arise from expressions
+        V::Sng(n) if n.is_nan() => "(0!/0!)".to_string(),
+        V::Sng(n) if n.is_infinite() => (if *n > 0.0 { "(1!/0!)" } else { "(-1!/0!)" }).to_string(),
         V::Sng(n) => format!("{}", n),
         V::Dbl(n) => format!("{}#", n),
         V::Str(s) => {
@@ -249,7 +252,7 @@ fn mid_assign_ref(orig: &V, pos: &V, len: Option<&V>, ins: &V) -> Result<V, E> {
         Some(v) => v.as_f64()?.floor(),
         None => 32767.0,
     };
-    if p < 1.0 || l < 0.0 || p > 1e9 || l > 1e9 {
+    if p.is_nan() || l.is_nan() || p < 1.0 || l < 0.0 || p > 1e9 || l > 1e9 {
         return Err(SOME_ERROR);
     }
     let mut r = o.clone();
@@ -314,6 +317,10 @@ fn numbers_for(len: usize) -> Vec<V> {
     v.push(V::Sng(1.5));
     v.push(V::Sng(-0.5));
     v.push(V::Sng(40000.0));
+    // a position or count that is not a number, or infinite, is out of domain
+    v.push(V::Sng(f32::NAN));
+    v.push(V::Sng(f32::INFINITY));
+    v.push(V::Sng(f32::NEG_INFINITY));
     v
 }
 
